@@ -111,11 +111,18 @@ def coq_configure():
 def coq_make(targets=None, jobs=16, timeout=3000, keep_going=False):
     """Full .vo build of the given targets (paths relative to coq/, .vo)."""
     with Lock('coq'):
-        coq_configure()
-        tgt = ' '.join(targets) if targets else ''
-        k = '-k' if keep_going else ''
-        rc, out = sh(f'timeout {timeout} make {k} -f Makefile.coq -j{jobs} {tgt}', cwd=COQ,
-                     timeout=timeout + 30)
+        for attempt in range(3):
+            coq_configure()
+            tgt = ' '.join(targets) if targets else ''
+            k = '-k' if keep_going else ''
+            rc, out = sh(f'timeout {timeout} make {k} -f Makefile.coq -j{jobs} {tgt}', cwd=COQ,
+                         timeout=timeout + 30)
+            # a file listed in _CoqProject vanished or appeared meanwhile: reconfigure and retry
+            if rc != 0 and ('No such file or directory' in out or 'No rule to make target' in out):
+                (COQ / '_CoqProject').unlink(missing_ok=True)
+                time.sleep(1)
+                continue
+            break
     return rc == 0, out
 
 
@@ -386,10 +393,13 @@ class Check:
             self.known_hits[key] += 1
             return False
         n = len(self.violations)
+        self._per_what = getattr(self, '_per_what', {})
+        self._per_what[what] = self._per_what.get(what, 0) + 1
         path = EVID / 'replays' / f'{self.pid}-{n}.json'
-        obj = {'property': self.pid, 'what': what, 'key': key, 'replay': replay,
-               'no_failing_input_found': bool(no_input), 'seed': self.seed, 'tier': self.tier}
-        path.write_text(json.dumps(obj, indent=1, default=str))
+        if self._per_what[what] <= 10:   # keep the first few replays of each kind, count the rest
+            obj = {'property': self.pid, 'what': what, 'key': key, 'replay': replay,
+                   'no_failing_input_found': bool(no_input), 'seed': self.seed, 'tier': self.tier}
+            path.write_text(json.dumps(obj, indent=1, default=str))
         self.violations.append((what, str(path), no_input))
         return True
 
